@@ -34,6 +34,10 @@ NAMESETS = {
 # names that merely look like the ACTIVE marker of a listing line
 NAMESETS["activeish"] = (b"active_old", b"Active-new", b"ACTIVE")
 NAMESETS["activeish2"] = (b"ACTIVE", b"active", b"old ACTIVE")
+# names that a Unicode normalisation or a case folding would change or merge
+NAMESETS["non-nfc"] = ("o\u0302ld".encode("utf-8"), "re\u0301pondeur".encode("utf-8"), "\u212bngstr\u00f6m".encode("utf-8"))
+NAMESETS["case-twins"] = (b"Script", b"script", b"SCRIPT")
+NAMESETS["blank-twins"] = (b"name", b"name ", b" name")
 NAMESETS["new-special"] = (NAMESETS["plain"][0], NAMESETS["special"][1], NAMESETS["plain"][2])
 NAMESETS["old-special"] = (NAMESETS["special"][0], NAMESETS["plain"][1], NAMESETS["special"][2])
 OLD, NEW, BY = NAMESETS["plain"]
